@@ -483,6 +483,14 @@ Definition final_at (l : loc) (init : mem) (ts : list thread) (sched : list nat)
 Definition find_bad (l : loc) (init : mem) (ts : list thread) (k : nat) (want : Z) : option (list nat) :=
   find (fun sc => let r := final_at l init ts sc in snd r && negb (fst r =? want)) (interleavings k k (k + k)).
 
+(* first schedule of two threads (k steps each) after which the threads, each then run alone for `extra` more steps, are
+   still not all done: a call that never returns (a retry loop that cannot succeed any more).  Supporting search. *)
+Definition find_spin (init : mem) (ts : list thread) (k extra : nat) : option (list nat) :=
+  find (fun sc => negb (all_done (snd (run (init, ts) (sc ++ repeat 0%nat extra ++ repeat 1%nat extra)))))
+       (interleavings k k (k + k)).
+Definition find_spin2 (init : mem) (secs : list section) (a0 a1 : list Z) (k extra : nat) : option (list nat) :=
+  find_spin init [start secs a0; start secs a1] k extra.
+
 (* ---- sequential execution (correspondence with the implementation: the same calls run one after the other) ---- *)
 Fixpoint seq_sched (n k : nat) : list nat :=
   match n with O => [] | S n' => seq_sched n' k ++ repeat n' k end.
